@@ -109,7 +109,7 @@ def triage(eng, ob, tier, seed, expected):
     tried = 0
     if ob.model is not None:
         try:
-            job = eng.job_for(c, specs, ob.model, [nclause], post_state=True)
+            job = eng.job_for(c, specs, ob.model, [nclause], post_state=True, warm=getattr(ob, 'warm', False))
             r = eng.native([job])[0]
             tried = 1
             payload['native'] = r
@@ -138,8 +138,9 @@ def triage(eng, ob, tier, seed, expected):
                     a[k] = a[k] + rng.choice((-1, 1)) * rad * max(
                         abs(a[k]), 1e-3) * rng.random()
             asgs.append(a)
-    asgs += [eng.sample_assignment(specs, rng) for _ in range(n)]
-    jobs = [eng.job_for(c, specs, a, [nclause]) for a in asgs]
+    wm = getattr(ob, 'warm', False)
+    asgs += [eng.sample_assignment(specs, rng, warm=wm) for _ in range(n)]
+    jobs = [eng.job_for(c, specs, a, [nclause], warm=wm) for a in asgs]
     found = None
     ok = 0
     try:
@@ -338,7 +339,8 @@ def run_items(prop, tier, seed, items, expected, verbose=False,
         d['replay'] = o.replay
         obs.append(d)
     return {'obligations': obs, 'functions': eng.functions,
-            'cross': dict(eng.cross, float_noise=eng.float_noise),
+            'cross': dict(eng.cross, float_noise=eng.float_noise,
+                          history_skipped=list(eng.history_skipped)),
             'errors': eng.errors,
             'files': dict(eng.interp.files_read) if eng.interp else {},
             'stats': {k: dict(v) for k, v in STATS.by_backend.items()},
@@ -363,6 +365,8 @@ def merge_results(parts):
             out['cross'][k] += p['cross'][k]
         out['cross'].setdefault('float_noise', []).extend(
             p['cross'].get('float_noise', []))
+        out['cross'].setdefault('history_skipped', []).extend(
+            p['cross'].get('history_skipped', []))
         out['cross']['skipped'].extend(p['cross']['skipped'])
         for k, v in p['stats'].items():
             d = out['stats'].setdefault(k, {'queries': 0, 'seconds': 0.0})
